@@ -407,6 +407,10 @@ impl Compressor {
                         let bw = std::io::BufWriter::new(f);
                         encoders.push(zstd::stream::write::Encoder::new(bw, 3)?);
                     }
+                    // Every registered client sends its own shutdown request, and several
+                    // clients share this thread; keep serving until all of them are done,
+                    // otherwise the remaining clients find the channel closed.
+                    let mut active_clients = regs.len();
                     loop {
                         if shutdown.load(sync::atomic::Ordering::Relaxed) {
                             break;
@@ -422,7 +426,10 @@ impl Compressor {
                             }
                             CompressRequest::Shutdown => {
                                 trace!("Compressor shutdown");
-                                break;
+                                active_clients = active_clients.saturating_sub(1);
+                                if active_clients == 0 {
+                                    break;
+                                }
                             }
                             CompressRequest::Data(encoder_index, data) => {
                                 trace!(lines = data.len(), thread_id = x, "Encoder write");
